@@ -40,10 +40,13 @@ CLAIMED = {
              "exactly over the valid cases (in service, not NaN: own outage excluded), preserves 'cause names a case that produces the "
              "reported maximum', flags causes_overloading of the outaged element iff some branch is overloaded in that case, copies the "
              "N-0 values; run_contingency (loop + try/except/finally, real text) restores every in_service flag on normal exit, on "
-             "swallowed failures and when re-raising. Extended reals with NaN.",
+             "swallowed failures and when re-raising. Extended reals with NaN. The step completes (no exception) when an element table has no "
+             "loading limit column; what run_contingency writes to net.res_* equals the returned dict for every accumulator, for fresh "
+             "result tables and for tables that already carry the columns of an earlier analysis. Bounded native stand-in: whole analyses "
+             "against brute force on 5 fixed networks, incl. a second analysis started from the results of the first.",
         note="Assumed: numpy fmax/fmin/where=/out= and comparison-with-NaN semantics; np.any as existence over rows (generic-row "
              "abstraction); the evaluation function is arbitrary but does not touch in_service. Not decided: the N-1 power flows, "
-             "run_contingency_ls2g, write_to_net transfer."),
+             "run_contingency_ls2g."),
     "C15": dict(
         text="Proof: _update_contingency_results_parallel in both call modes satisfies, for a generic row, the same step specification "
              "that the sequential _update_contingency_results is proved against (C14) with the tripped element's own row and "
@@ -75,7 +78,9 @@ CLAIMED = {
     "C02": dict(
         text="Proof for a generic row of every branch element table: (a) the real result functions _get_branch_flows / _get_line_results / "
              "_get_trafo_results / _get_trafo3w_results / _get_impedance_results write exactly the documented result formulas (terminal "
-             "powers, losses, currents from |S|/(sqrt(3) V), loading for current and power mode, angles) for AC and DC; (b) the real "
+             "powers, losses, currents from |S|/(sqrt(3) V), loading for current and power mode, angles) for AC and DC - DC under the "
+             "precondition |V| = 1 p.u. at every bus in service, which the real _extract_results is proved to establish before any result "
+             "routine reads the ppc; (b) the real "
              "_calc_line_parameter writes the documented per-unit pi parameters r, x, b, g with Z_N = V_N^2 / S_N, from/to bus, status and "
              "RATE_A, and only into the line block; (c) the real branch_vectors returns the documented two-port (ideal transformer "
              "t e^{j theta} at the from side, then the pi circuit) - Yff, Yft, Ytf, Ytt real and imaginary parts; (d) the two-winding "
@@ -174,7 +179,7 @@ CLAIMED = {
              "_update_q reports q = 0 for every machine that is not running (the Q-limit loop relies on it for the gens it has "
              "switched off). The "
              "Q-limit enforcement loop is only a bounded stand-in (native power flows on two fixed networks incl. a two-round "
-             "limiting cascade), labelled bounded. DC power flow: the shunt / ward / xward results use 1 p.u. like the DC model.",
+             "limiting cascade), labelled bounded. DC power flow: the shunt / ward / xward results use 1 p.u. like the DC model. _run_pf_algorithm does not take the reference-buses-only shortcut (which has no limit loop) when enforce_q_lims is set and the network has branches (the branch-less case is a recorded known finding).",
         note="Assumed: A-SOLVE (Newton keeps reference / PV voltages), A-LOOKUP, _sum_by_group (distinct keys with per-key sums). Not "
              "decided deductively: _run_ac_pf_with_qlims_enforced (needs a per-bus sum invariant), step characteristic tables of "
              "shunts, svc / ssc / vsc, trafo3w star losses, motors, asymmetric elements."),
@@ -193,7 +198,7 @@ CLAIMED = {
              "re-derives, before the solver runs, every ppc part whose flag is set - for the branch flag the parameter function of "
              "every branch table present in the lookup (trafo, trafo3w, line), for all combinations of flags and tables; "
              "_check_output_writer_recyclability declares a result variable batch-readable only if OutputWriter.get_batch_outputs "
-             "records it (all result columns of res_bus / res_line / res_trafo / res_trafo3w / res_load / res_gen enumerated). _evaluate_net: the cached network data of a diverged run is discarded before the repair run and before the next time step, with and without continue_on_divergence.",
+             "records it (all result columns of res_bus / res_line / res_trafo / res_trafo3w / res_load / res_gen enumerated). _recycled_powerflow leaves the branch end buses (auxiliary buses at open switches) as the full conversion determined them when the parameter functions re-read the tables. Bounded native stand-in: run_timeseries against fresh power flows (profiles on 5 element columns, a diverging step, several variables of one table, open switches with tap / line profiles, stale _ppc, two runs on one output writer). _evaluate_net: the cached network data of a diverged run is discarded before the repair run and before the next time step, with and without continue_on_divergence.",
         note="Assumed: which ppc part derives from which table (DOMAIN in the contract). Not decided: numerical batch reading "
              "(read_batch_results), only_v_results copying, other controller classes, the solver."),
     "C22": dict(
@@ -211,9 +216,9 @@ CLAIMED = {
              "rows handed to add_edges are exactly the in-service elements (or all, if out-of-service ones are included) that no open "
              "switch of the element's code interrupts (trafo3w: at one of the edge's two buses), with the table's bus columns as end "
              "points and the element index as key; lines carry their length; bus-bus switches give an edge iff closed (or switches "
-             "are not respected); calc_distance_to_bus searches a multigraph built with the caller's options. Every out-of-service bus that is a node of the graph is removed (unless include_out_of_service), whatever the number of nodes or nogobuses.",
-        note="Assumed: add_edges adds one edge per in-service row; networkx (MultiGraph, Dijkstra). Not decided: connected_components, "
-             "nogobuses / notravbuses, edge impedances, tcsc / dcline / vsc / line_dc edges, graph_tool back end."),
+             "are not respected); calc_distance_to_bus searches a multigraph built with the caller's options. Every out-of-service bus that is a node of the graph is removed (unless include_out_of_service), whatever the number of nodes or nogobuses. Bounded native stand-in: edges, nodes, components and distances of fixed networks, notravbuses next to out-of-service buses, connected_components with notravbuses sets (cover, no duplicates).",
+        note="Assumed: add_edges adds one edge per in-service row; networkx (MultiGraph, Dijkstra). Bounded only: connected_components, "
+             "nogobuses / notravbuses. Not decided: edge impedances, tcsc / dcline / vsc / line_dc edges, graph_tool back end."),
     "C01": dict(
         text="Proof with sums over the (arbitrarily many) machines / loads at one bus as linear functionals: after the real "
              "_split_p_for_gens_at_same_bus the active powers of all machines at a reference bus add up to the bus power for every "
